@@ -5,6 +5,9 @@ package jtp
 // VerifPurge empties the response cache between simulated runs of one worker process.
 // It uses the cache's own method and mirrors no constant of the package.
 func VerifPurge() {
+	// a cache built from a configuration it cannot work with must fail in servitor's own code
+	// (where the simulation attributes it), not here
+	defer func() { recover() }()
 	if cache != nil {
 		cache.Purge()
 	}
